@@ -52,6 +52,12 @@ EDITS = [
     ("fields-reordered", "R: !record\n  fields:\n    a: int32\n    b: string\n\n" + P0, "R: !record\n  fields:\n    b: string\n    a: int32\n\n" + P0, "ok"),
     ("required-field-added", "R: !record\n  fields:\n    a: int32\n\n" + P0, "R: !record\n  fields:\n    a: int32\n    n: string\n\n" + P0, "warn"),
     ("required-field-removed", "R: !record\n  fields:\n    a: int32\n    n: string\n\n" + P0, "R: !record\n  fields:\n    a: int32\n\n" + P0, "warn"),
+    # a required field whose TYPE merely contains an optional somewhere inside is still a required field
+    ("required-record-field-added", "Inner: !record\n  fields:\n    note: string?\n    k: int32\n\nR: !record\n  fields:\n    a: int32\n\n" + P0, "Inner: !record\n  fields:\n    note: string?\n    k: int32\n\nR: !record\n  fields:\n    a: int32\n    h: Inner\n\n" + P0, "warn"),
+    ("required-record-field-removed", "Inner: !record\n  fields:\n    note: string?\n    k: int32\n\nR: !record\n  fields:\n    a: int32\n    h: Inner\n\n" + P0, "Inner: !record\n  fields:\n    note: string?\n    k: int32\n\nR: !record\n  fields:\n    a: int32\n\n" + P0, "warn"),
+    ("required-vector-of-records-field-added", "Inner: !record\n  fields:\n    note: string?\n    k: int32\n\nR: !record\n  fields:\n    a: int32\n\n" + P0, "Inner: !record\n  fields:\n    note: string?\n    k: int32\n\nR: !record\n  fields:\n    a: int32\n    h: Inner*\n\n" + P0, "warn"),
+    ("required-union-with-record-field-added", "Inner: !record\n  fields:\n    note: string?\n    k: int32\n\nR: !record\n  fields:\n    a: int32\n\n" + P0, "Inner: !record\n  fields:\n    note: string?\n    k: int32\n\nR: !record\n  fields:\n    a: int32\n    h: [int32, Inner]\n\n" + P0, "warn"),
+    ("required-map-of-optionals-field-removed", "R: !record\n  fields:\n    a: int32\n    h: string->int32?\n\n" + P0, "R: !record\n  fields:\n    a: int32\n\n" + P0, "warn"),
     ("field-made-optional", "R: !record\n  fields:\n    a: int32\n\n" + P0, "R: !record\n  fields:\n    a: int32?\n\n" + P0, "warn"),
     ("field-int-to-long", "R: !record\n  fields:\n    a: int32\n\n" + P0, "R: !record\n  fields:\n    a: int64\n\n" + P0, "warn"),
     ("field-int-to-string", "R: !record\n  fields:\n    a: int32\n\n" + P0, "R: !record\n  fields:\n    a: string\n\n" + P0, "warn"),
